@@ -7,6 +7,7 @@ import (
 	"encoding/json"
 	"fmt"
 	"os"
+	"reflect"
 	"strconv"
 	"sync"
 )
@@ -14,12 +15,31 @@ import (
 var outMu sync.Mutex
 var outEnc = json.NewEncoder(os.Stdout)
 
+// failed records so far; a run whose direct oracle has already failed maxOracleFails times stops (the verdict is
+// settled, and scenarios against a broken tree tend to run into their time limits one after the other)
+var oracleFails int
+
+const maxOracleFails = 6
+
 func emit(v interface{}) {
 	outMu.Lock()
 	defer outMu.Unlock()
 	if err := outEnc.Encode(v); err != nil {
 		fmt.Fprintln(os.Stderr, "emit:", err)
 		os.Exit(3)
+	}
+	rv := reflect.ValueOf(v)
+	for rv.Kind() == reflect.Ptr && !rv.IsNil() {
+		rv = rv.Elem()
+	}
+	if rv.Kind() == reflect.Struct {
+		if f := rv.FieldByName("Oracle"); f.IsValid() && f.Kind() == reflect.String && f.String() != "" {
+			oracleFails++
+			if oracleFails >= maxOracleFails && os.Getenv("VERIF_NO_EARLY_STOP") == "" {
+				fmt.Fprintln(os.Stderr, "stopping early: the direct oracle failed", oracleFails, "times")
+				os.Exit(0)
+			}
+		}
 	}
 }
 
